@@ -3,65 +3,65 @@
 // (appends this test to the harness module in a scratch overlay of /repo and runs `cargo kani playback`).
 /// Test generated for harness `xls::k_c02_xls::c02_q_mulrk_n3` 
 ///
-/// Check for `assertion`: "attempt to add with overflow"
+/// Check for `assertion`: ""MULRK entry value""
 
 #[test]
-fn kani_concrete_playback_c02_q_mulrk_n3_9106913460591751742() {
+fn kani_concrete_playback_c02_q_mulrk_n3_14965341186495936106() {
     let concrete_vals: Vec<Vec<u8>> = vec![
-        // 0
-        vec![0],
-        // 0
-        vec![0],
-        // 0
-        vec![0],
-        // 0
-        vec![0],
-        // 255
-        vec![255],
-        // 132
-        vec![132],
-        // 2
-        vec![2],
-        // 0
-        vec![0],
-        // 0
-        vec![0],
-        // 0
-        vec![0],
-        // 255
-        vec![255],
-        // 214
-        vec![214],
-        // 2
-        vec![2],
-        // 0
-        vec![0],
-        // 0
-        vec![0],
-        // 128
-        vec![128],
-        // 254
-        vec![254],
-        // 133
-        vec![133],
-        // 2
-        vec![2],
-        // 0
-        vec![0],
-        // 107
-        vec![107],
-        // 0
-        vec![0],
         // 255
         vec![255],
         // 255
         vec![255],
+        // 17
+        vec![17],
+        // 0
+        vec![0],
         // 1
         vec![1],
+        // 0
+        vec![0],
+        // 14
+        vec![14],
+        // 56
+        vec![56],
+        // 239
+        vec![239],
+        // 255
+        vec![255],
+        // 0
+        vec![0],
+        // 0
+        vec![0],
+        // 142
+        vec![142],
+        // 255
+        vec![255],
+        // 255
+        vec![255],
+        // 237
+        vec![237],
         // 2
         vec![2],
-        // 2
-        vec![2],
+        // 0
+        vec![0],
+        // 18
+        vec![18],
+        // 254
+        vec![254],
+        // 255
+        vec![255],
+        // 199
+        vec![199],
+        // 19
+        vec![19],
+        // 0
+        vec![0],
+        // 0
+        vec![0],
+        // 1
+        vec![1],
+        // 0
+        vec![0],
         // 1
         vec![1],
     ];
@@ -73,64 +73,64 @@ fn kani_concrete_playback_c02_q_mulrk_n3_9106913460591751742() {
 /// Check for `cover`: "end"
 
 #[test]
-fn kani_concrete_playback_c02_q_mulrk_n3_15880546177993324048() {
+fn kani_concrete_playback_c02_q_mulrk_n3_1907931945659790307() {
     let concrete_vals: Vec<Vec<u8>> = vec![
         // 255
         vec![255],
         // 255
         vec![255],
-        // 255
-        vec![255],
-        // 199
-        vec![199],
-        // 255
-        vec![255],
-        // 132
-        vec![132],
-        // 2
-        vec![2],
+        // 127
+        vec![127],
         // 0
         vec![0],
+        // 1
+        vec![1],
         // 0
         vec![0],
+        // 6
+        vec![6],
         // 0
         vec![0],
-        // 255
-        vec![255],
-        // 214
-        vec![214],
-        // 2
-        vec![2],
-        // 0
-        vec![0],
-        // 0
-        vec![0],
-        // 128
-        vec![128],
+        // 246
+        vec![246],
+        // 24
+        vec![24],
         // 3
         vec![3],
         // 0
         vec![0],
+        // 82
+        vec![82],
+        // 65
+        vec![65],
+        // 2
+        vec![2],
+        // 44
+        vec![44],
+        // 2
+        vec![2],
+        // 128
+        vec![128],
+        // 222
+        vec![222],
+        // 254
+        vec![254],
+        // 11
+        vec![11],
+        // 0
+        vec![0],
+        // 129
+        vec![129],
+        // 0
+        vec![0],
+        // 1
+        vec![1],
         // 2
         vec![2],
         // 0
         vec![0],
-        // 107
-        vec![107],
-        // 0
-        vec![0],
-        // 1
-        vec![1],
-        // 200
-        vec![200],
-        // 1
-        vec![1],
         // 2
         vec![2],
-        // 2
-        vec![2],
-        // 1
-        vec![1],
     ];
     kani::concrete_playback_run(concrete_vals, c02_q_mulrk_n3);
 }
